@@ -81,7 +81,8 @@ LEVEL_TEXT = (
     "computes that parse; capstone hostile_content_unique_reading: for any content and any lawful codec the "
     "decoded byte stream has exactly one reading and its control tokens are exactly the renderer's own. Also "
     "modelled and proved: every other emitter of Vt100_Output and Renderer.reset/erase (pure-ASCII sentences "
-    "of the grammar for every amount/position/state), set_title, the dumb-terminal prompt, patch_stdout "
+    "of the grammar for every amount/position/state), set_title (any title is exactly one OSC token), the "
+    "dumb-terminal prompt (only the text's own newlines survive as controls), patch_stdout "
     "raw/safe, print_formatted_text on Vt100_Output and PlainTextOutput. Tied to /repo on every run by "
     "regenerated tables (display table, emitter strings, code pages, probes), a differential correspondence "
     "(every code point incl. surrogates through Char and through every codec, copy_body, diff, print, real "
@@ -112,7 +113,8 @@ EXHAUSTIVE_SCOPE = {
              "strings over an 8-symbol alphabet (ASCII, lone surrogate, C1, wide, ESC, Latin-1, euro, non-BMP) up to "
              "length 2 x 9 codecs x 8 error handlers; U+0000-04FF + the code page's whole repertoire through every "
              "codec; all write/write_raw/flush sequences up to length 3 on both output classes; Renderer.reset/erase: "
-             "all 8 flag combinations x leave_alternate_screen",
+             "all 8 flag combinations x leave_alternate_screen; set_title: every C0/DEL/C1 code point alone, "
+             "embedded, leading and trailing + all pairs over 8 symbols",
     "thorough": "Char(c): every code point U+0000-10FFFF incl. surrogates; every code point through every one of the "
                 "9 codecs; copy_body: all lines over a 7-symbol alphabet up to length 4 x widths 1-4 x wrap on/off; "
                 "bytes: all strings over the 8-symbol alphabet up to length 3 x 9 codecs x 8 error handlers"}
@@ -134,13 +136,10 @@ ASSUMPTIONS = ["wcwidth of the running interpreter (regenerated table; theorems 
                "ISO-2022 and EBCDIC code pages are outside the byte-level theorems)",
                "the OSError branches of flush_stdout (EINTR / errno 0 swallowed) may drop part of one flush; they "
                "add nothing"]
-PARTIAL_SCOPE = ["known finding: PromptSession._dumb_prompt (TERM=dumb/unknown) writes control characters of the prompt "
-                 "message and of typed text raw (only ESC is replaced): dumb_unmapped_injects / dumb_clean_partial; "
-                 "repair proposed (proposed_fixes/C10-dumb-prompt-controls.diff), full theorem dumb_mapped_full holds "
-                 "for the repaired code (probe Gen.C10.dumbPromptMaps)",
-                 "observation (outside the property's quantifier): Vt100_Output.set_title deletes only ESC and BEL, an "
-                 "8-bit ST (U+009C) in a title ends the OSC early: setTitle_st_injects / setTitle_one_token_partial; "
-                 "repair proposed (proposed_fixes/C10-set-title-controls.diff), setTitle_all holds for it",
+PARTIAL_SCOPE = ["repaired during this work (fixed entries in known_findings.json, witnesses in corpus/C10): the "
+                 "dumb-terminal prompt wrote control characters raw (/repo 16862de; dumbPreFix_injects is kept as a "
+                 "statement about the old rule, dumb_prompt_clean holds for the code as it is), set_title deleted only "
+                 "ESC and BEL (/repo f7226c7; setTitlePreFix_st_injects / setTitle_one_token)",
                  "Win32Output / ConEmuOutput / Windows10_Output: the modules assert sys.platform == 'win32' and load "
                  "ctypes.windll at import, they cannot be imported or run here; Windows10_Output delegates to "
                  "Vt100_Output (the modelled write/write_raw); Win32Output.write goes to WriteConsoleW on a console "
@@ -1550,17 +1549,44 @@ def il_calls(case):
 
 
 TITLE_TOKEN = re.compile("\x1b\\]2;[^\x00-\x1f\x7f-\x9f]*\x07", re.S)
+TITLE_FRAME = ("\x1b]2;", "\x07")
+
+
+def title_violation(term, title):
+    """set_title judged on the real code: what is between the `ESC ] 2 ;` frame and the closing BEL must not
+    contain any C0 / DEL / C1 character, whatever the title is"""
+    sio = io.StringIO()
+    o = Vt100_Output(sio, lambda: Size(rows=24, columns=80), term=term)
+    o.set_title(title)
+    o.flush()
+    got = sio.getvalue()
+    if got == "" and term in ("linux", "eterm-color"):
+        return None
+    pre, suf = TITLE_FRAME
+    if not (got.startswith(pre) and got.endswith(suf) and len(got) >= len(pre) + len(suf)):
+        return {"signature": "Vt100_Output.set_title | output is not ESC ] 2 ; <title> BEL",
+                "msg": f"set_title({title!r}) wrote {got!r}"}
+    body = got[len(pre):len(got) - len(suf)]
+    if has_control(body):
+        bad_cp = next(c for c in body if is_control(c))
+        return {"signature": "Vt100_Output.set_title | control character inside the title sequence",
+                "msg": f"set_title({title!r}) wrote {got!r}: U+{ord(bad_cp):04X} inside the title sequence"}
+    return None
 
 
 def or_calls(case):
     """everything an emitter writes is the renderer's own repertoire: complete control tokens, pure ASCII
-    (the title text itself excepted), nothing between them.  (Control characters INSIDE a title are not
-    content of the property's quantifier; the correspondence replays them: corpus/C10/title-st-injects.json)"""
-    text = run_calls(case)
+    (the title text itself excepted), nothing between them; set_title never lets a control character of the
+    title through"""
     v = []
+    term = "linux" if case.get("silent") else "xterm"
+    for c in case["ops"]:
+        if c[0] == "title":
+            x = title_violation(term, c[1])
+            if x:
+                return [x]
+    text = run_calls(case)
     titles = [c[1] for c in case["ops"] if c[0] == "title"]
-    if any(has_control(t.replace("\x1b", "").replace("\x07", "")) for t in titles):
-        return v
     for kind, tk in tokenize(text):
         if kind == "t":
             v.append({"signature": "Vt100_Output emitters | text outside a control sequence", "msg": repr(text)[:300]})
@@ -1772,9 +1798,17 @@ def gen_out_writers(tier, rng):
     for _ in range(80 if quick else 3000):
         yield {"kind": "calls", "bell": rng.random() < 0.8, "silent": rng.random() < 0.2,
                "ops": [rand_call(rng) for _ in range(rng.randrange(0, 12))]}
-    # titles with hostile text: the model reproduces what the real filter leaves in
+    # titles: every control code point alone, in the middle and at both ends; all pairs of {ESC, BEL, ST, CSI,
+    # DEL, U+009F, NUL, a}; then hostile text
+    ctl = list(range(0x20)) + list(range(0x7F, 0xA0))
+    for cp in ctl:
+        yield {"kind": "calls", "small": True,
+               "ops": [["title", chr(cp)], ["title", "a" + chr(cp) + "b"], ["title", chr(cp) + "2J"], ["title", "t" + chr(cp)]]}
+    import itertools
+    for a_, b_ in itertools.product("\x1b\x07\x9c\x9b\x7f\x9f\x00a", repeat=2):
+        yield {"kind": "calls", "small": True, "ops": [["title", "x" + a_ + b_ + "y"]]}
     for _ in range(40 if quick else 2000):
-        yield {"kind": "calls", "ops": [["title", rand_hostile(rng, rng.randrange(0, 8))]]}
+        yield {"kind": "calls", "silent": rng.random() < 0.1, "ops": [["title", rand_hostile(rng, rng.randrange(0, 8))]]}
     # Renderer.reset / erase: all flag combinations
     for erase in (False, True):
         for fl in range(8):
